@@ -713,12 +713,24 @@ func CreateUpdateMsgFromPaths(pathList []*Path, options ...*bgp.MarshallingOptio
 	// Since sendMessageloop coalesces outgoing BGP UPDATE messages and
 	// the packers emit withdrawals before announcements, we should keep only the
 	// last action for each NLRI/path-id within one packing pass.
+	//
+	// Without ADD-PATH the path identifier is not on the wire: a later
+	// announcement or withdrawal of a prefix replaces any earlier one for the
+	// peer, whichever path it was made from, so the identifier is not part of
+	// the key (the packers emit attribute groups in no particular order).
+	key := func(path *Path) PathLocalKey {
+		k := path.GetLocalKey()
+		if !bgp.IsAddPathEnabled(false, path.GetFamily(), options) {
+			k.Id = 0
+		}
+		return k
+	}
 	last := make(map[PathLocalKey]*Path, len(pathList))
 	for _, path := range pathList {
 		if path == nil || path.IsEOR() {
 			continue
 		}
-		last[path.GetLocalKey()] = path
+		last[key(path)] = path
 	}
 
 	m := make(map[bgp.Family]packerInterface)
@@ -738,7 +750,7 @@ func CreateUpdateMsgFromPaths(pathList []*Path, options ...*bgp.MarshallingOptio
 			add(path)
 			continue
 		}
-		if last[path.GetLocalKey()] != path {
+		if last[key(path)] != path {
 			continue
 		}
 		add(path)
